@@ -1,17 +1,30 @@
 """Remaining repository-specific rules: index access (C09), data_id definition
 (C02), kind-aware queries (C15), parent walks (C10), frames and metadata (C04),
-file-system loader (C19), random tree generator (C20)."""
+file-system loader (C19), random tree generator (C20).
+
+Shapes are matched with structural patterns (sa.pat): local variable names are
+metavariables ($x), API names (attributes, parameters, called functions) are
+literal."""
 from __future__ import annotations
 
 import ast
 from typing import Dict, List, Optional, Set, Tuple
 
-from ..cfg import describe_path
 from ..core import Ctx, Ob, rule
 from ..infer import NODE, SLOT
 from ..model import AnalysisError, Func, iter_own, norm
+from ..pat import find, has, match, one
 from .trav import _if_chain
 from .util import raised_class, stmt_index
+
+
+def _returns(f: Func) -> List[ast.Return]:
+    return [n for n in iter_own(f.node, into_lambda=False) if isinstance(n, ast.Return) and n.value is not None]
+
+
+def _first_param(f: Func) -> str:
+    ps = [x for x in f.positional_params() if x != f.self_name]
+    return ps[0] if ps else "?"
 
 
 # ------------------------------------------------------------------- EXH-5
@@ -22,102 +35,116 @@ def exh5(ctx: Ctx) -> List[Ob]:
     m = ctx.model
     f = m.func("Tree.__getitem__")
     cfg = ctx.cfg(f)
-    p = [x for x in f.positional_params() if x != f.self_name][0]
+    p = _first_param(f)
     raises = {raised_class(n): n for n in iter_own(f.node) if isinstance(n, ast.Raise)}
-    for cls, cond_txts, why in (
+    for cls, pats, why in (
         ("ValueError", [f"isinstance({p}, Node)"], "a node is not a key"),
-        ("KeyError", ["not res", "len(res) == 0", "res is None"], "no match"),
-        ("AmbiguousMatchError", ["len(res) > 1", "len(res) >= 2"], "several matches"),
+        ("KeyError", ["not $r", "len($r) == 0", "$r is None"], "no match"),
+        ("AmbiguousMatchError", ["len($r) > 1", "len($r) >= 2"], "several matches"),
     ):
         r = raises.get(cls)
         ok = r is not None
         if ok:
             par = m.parent_of(r)
-            ok = isinstance(par, ast.If) and norm(par.test) in cond_txts
-        obs.append(ctx.ob("EXH-5", ["C09"], f, f"raises {cls} when {cond_txts[0]}", r, ok, "" if ok else f"index access must raise {cls} for: {why}"))
+            ok = isinstance(par, ast.If) and any(match(x, par.test) is not None for x in pats)
+        obs.append(ctx.ob("EXH-5", ["C09"], f, f"raises {cls} for: {why}", r, ok, "" if ok else f"index access must raise {cls} for: {why}"))
     # order: node_id lookup (int) -> data_id membership -> data
-    nid = [n for n in cfg.stmt_nodes() if n.kind == "test" and norm(n.ast) == f"isinstance({p}, int)"]
-    did = [n for n in cfg.stmt_nodes() if n.kind == "test" and "in self._nodes_by_data_id" in norm(n.ast)]
+    nid = [n for n in cfg.stmt_nodes() if n.kind == "test" and match(f"isinstance({p}, int)", n.ast) is not None]
+    did = [n for n in cfg.stmt_nodes() if n.kind == "test" and has(f"{p} in self._nodes_by_data_id", n.ast)]
     ok = len(nid) == 1 and len(did) == 1 and cfg.dominated_by(did[0], lambda n: n is nid[0])
     obs.append(ctx.ob("EXH-5", ["C09", "C02"], f, "node_id is consulted before data_id", None, ok, "" if ok else "resolution order: node_id, then data_id, then data"))
     if nid:
         par = m.parent_of(nid[0].ast)
-        t = " | ".join(norm(s) for s in par.body) if isinstance(par, ast.If) else ""
-        ok = f"res = self._node_by_id.get({p})" in t and "if res is not None: return res" in t
+        ok = isinstance(par, ast.If)
+        if ok:
+            a = one(f"$r = self._node_by_id.get({p})", par.body)
+            ok = a is not None and has("if $r is not None:\n    return $r", par.body, {"$r": a[1]["$r"]})
         obs.append(ctx.ob("EXH-5", ["C09", "C02"], f, "an int key that is a registered node_id returns that node", None, ok, "" if ok else "node_id lookup broken"))
     if did:
         par = m.parent_of(did[0].ast)
-        ok = isinstance(par, ast.If) and norm(par.body[0]) == f"res = self.find_all(data_id={p})" and norm(par.orelse[0]) == f"res = self.find_all({p})"
-        ok = ok and norm(par.test).startswith(f"isinstance({p}, (int, str)) and {p} in self._nodes_by_data_id")
+        ok = isinstance(par, ast.If) and len(par.body) == 1 and len(par.orelse) == 1
+        if ok:
+            a = match(f"$r = self.find_all(data_id={p})", par.body[0])
+            ok = a is not None and match(f"$r = self.find_all({p})", par.orelse[0], a) is not None
+            ok = ok and match(f"isinstance({p}, (int, str)) and {p} in self._nodes_by_data_id", par.test) is not None
         obs.append(ctx.ob("EXH-5", ["C09", "C02"], f, "a key present in the data_id index is looked up as data_id, anything else as data", None, ok, "" if ok else "data_id before data"))
-    ret = [n for n in iter_own(f.node) if isinstance(n, ast.Return) and norm(n.value) == "res[0]"]
+    ret = [n for n in _returns(f) if match("$r[0]", n.value) is not None]
     obs.append(ctx.ob("EXH-5", ["C09"], f, "the single match is returned", None, len(ret) == 1, ""))
     g = m.func("Tree.__contains__")
-    ok = any(isinstance(n, ast.Return) and norm(n.value) in (f"bool(self.find_first({g.positional_params()[1]}))", f"self.find_first({g.positional_params()[1]}) is not None")
-             for n in iter_own(g.node))
+    q = _first_param(g)
+    ok = any(match(f"bool(self.find_first({q}))", n.value) is not None or match(f"self.find_first({q}) is not None", n.value) is not None for n in _returns(g))
     obs.append(ctx.ob("EXH-5", ["C09", "C02"], g, "`data in tree` is find_first(data) found", None, ok, "" if ok else "containment must agree with lookup"))
-    # Tree.find_first / find_all read the index under the computed id
     for q in ("Tree.find_all", "Tree.find_first"):
         h = m.func(q)
-        t = [norm(s) for s in h.body]
-        ok = any(s.startswith("if data is not None:") and "data_id = self.calc_data_id(data)" in s for s in t)
+        ok = has("if data is not None:\n    ...", h.node) and has("data_id = self.calc_data_id(data)", h.node)
         obs.append(ctx.ob("EXH-5", ["C02", "C09"], h, f"{q}: data is converted with calc_data_id before the index is read", None, ok, "" if ok else "lookup by data must use the tree's id function"))
-        gets = [c for c in ctx.env.calls_in[h] if norm(c.func) == "self._nodes_by_data_id.get" and norm(c.args[0]) == "data_id"]
+        gets = find("self._nodes_by_data_id.get(data_id)", h.node)
         obs.append(ctx.ob("EXH-5", ["C02", "C09"], h, f"{q}: reads the clone list of data_id", None, len(gets) == 1, "" if gets else "index not consulted"))
     h = m.func("Tree.find_first")
-    ok = any(isinstance(n, ast.Return) and norm(n.value) == "self._node_by_id.get(node_id)" for n in iter_own(h.node))
+    ok = any(match("self._node_by_id.get(node_id)", n.value) is not None for n in _returns(h))
     obs.append(ctx.ob("EXH-5", ["C02", "C09"], h, "find_first(node_id=) reads the id map", None, ok, ""))
+    ok = any(match("$r[0] if $r else None", n.value) is not None for n in _returns(h))
+    obs.append(ctx.ob("EXH-5", ["C02", "C09"], h, "find_first(data/data_id) returns the first clone or None", None, ok, ""))
     return obs
 
 
 # ------------------------------------------------------------- DATAID-DEF
-@rule("DATAID-DEF", ["C02"], floor=6, section="4/C02")
+@rule("DATAID-DEF", ["C02", "C07"], floor=6, section="4/C02")
 def dataid_def(ctx: Ctx) -> List[Ob]:
     """a node's data_id is the explicit id if given, else the tree's id callback applied to the data, else hash(data); calc_data_id is called only where an id has to be derived"""
     obs: List[Ob] = []
     m = ctx.model
     f = m.func("Node.__init__")
-    ifs = [n for n in f.body if isinstance(n, ast.If) and norm(n.test) == "data_id is None"]
-    ok = len(ifs) == 1
+    ifs = [n for n in f.body if isinstance(n, ast.If) and match("data_id is None", n.test) is not None]
+    ok = len(ifs) == 1 and len(ifs[0].body) == 1 and len(ifs[0].orelse) == 1
     if ok:
-        a, b = ifs[0].body[0], ifs[0].orelse[0] if ifs[0].orelse else None
-        ok = isinstance(a, (ast.Assign, ast.AnnAssign)) and norm(a.value) == "tree.calc_data_id(data)" and norm(a.target if isinstance(a, ast.AnnAssign) else a.targets[0]) == "self._data_id"
-        ok = ok and b is not None and norm(b.value) == "data_id" and norm(b.target if isinstance(b, ast.AnnAssign) else b.targets[0]) == "self._data_id"
-    obs.append(ctx.ob("DATAID-DEF", ["C02"], f, "Node.__init__: explicit data_id wins, else tree.calc_data_id(data)", None, ok,
+        def rhs(st):
+            if isinstance(st, ast.AnnAssign) and norm(st.target) == "self._data_id":
+                return st.value
+            if isinstance(st, ast.Assign) and norm(st.targets[0]) == "self._data_id":
+                return st.value
+            return None
+        a, b = rhs(ifs[0].body[0]), rhs(ifs[0].orelse[0])
+        ok = a is not None and b is not None and match("$t.calc_data_id(data)", a) is not None and match("data_id", b) is not None
+    obs.append(ctx.ob("DATAID-DEF", ["C02", "C07"], f, "Node.__init__: explicit data_id wins, else tree.calc_data_id(data)", None, ok,
                       "" if ok else "the explicit id must be used as given (also 0 / ''), the derived one only when none was passed"))
     g = m.func("Tree.calc_data_id")
-    ok = len(g.body) >= 2
     stm = [s for s in g.body if not (isinstance(s, ast.Expr) and isinstance(s.value, ast.Constant))]
-    ok = len(stm) == 2 and isinstance(stm[0], ast.If) and norm(stm[0].test) in ("self._calc_data_id_hook", "self._calc_data_id_hook is not None") \
-        and norm(stm[0].body[0]) == "return self._calc_data_id_hook(self, data)" and norm(stm[1]) == "return hash(data)"
+    ok = len(stm) == 2 and (match("if self._calc_data_id_hook:\n    return self._calc_data_id_hook(self, data)", stm[0]) is not None
+                            or match("if self._calc_data_id_hook is not None:\n    return self._calc_data_id_hook(self, data)", stm[0]) is not None) \
+        and match("return hash(data)", stm[1]) is not None
     obs.append(ctx.ob("DATAID-DEF", ["C02"], g, "Tree.calc_data_id: the callback if one was given, else hash(data)", None, ok, "" if ok else "id derivation order changed"))
     ti = m.func("Tree.__init__")
     ok = any(isinstance(n, (ast.Assign, ast.AnnAssign)) and norm(n.target if isinstance(n, ast.AnnAssign) else n.targets[0]) == "self._calc_data_id_hook"
              and norm(n.value) == "calc_data_id" for n in ti.body)
     obs.append(ctx.ob("DATAID-DEF", ["C02"], ti, "Tree.__init__ stores the calc_data_id callback", None, ok, ""))
     # who may call calc_data_id
-    allowed = {"Node.__init__", "Node.set_data", "Node.find_all", "Tree.find_all", "Tree.find_first", "Node.to_list_iter"}
+    allowed = {"Node.__init__", "Node.set_data", "Node.find_all", "Tree.find_all", "Tree.find_first"}
     for h in m.all_funcs():
         for c in ctx.env.calls_in[h]:
             if any(x.qualname == "Tree.calc_data_id" for x, _ in ctx.env.callees(h, c)) or (
                     isinstance(c.func, ast.Name) and any(b.kind == "val" and isinstance(b.expr, ast.Attribute) and b.expr.attr == "calc_data_id"
                                                           for b in ctx.env.scope(h).resolve(c.func.id)[1])):
                 ok = h.top.qualname in allowed
-                obs.append(ctx.ob("DATAID-DEF", ["C02"], h, f"calc_data_id call: {norm(c)}", c, ok,
+                obs.append(ctx.ob("DATAID-DEF", ["C02"], h, f"calc_data_id is called in {h.top.qualname}", c, ok,
                                   "" if ok else "an id is re-derived from the data where the node's stored data_id must be used (explicit ids would be lost)"))
     # is_clone / get_clones read the slot of the node's own _data_id
     for q in ("Node.is_clone", "Node.get_clones"):
         h = m.func(q)
-        subs = [n for n in iter_own(h.node) if (isinstance(n, ast.Subscript) and norm(n.value) == "self._tree._nodes_by_data_id" and norm(n.slice) == "self._data_id")
-                or (isinstance(n, ast.Call) and norm(n.func) == "self._tree._nodes_by_data_id.get" and norm(n.args[0]) == "self._data_id")]
+        subs = find("self._tree._nodes_by_data_id[self._data_id]", h.node) + find("self._tree._nodes_by_data_id.get(self._data_id)", h.node)
         obs.append(ctx.ob("DATAID-DEF", ["C02"], h, f"{q} reads the clone list of the node's own data_id", None, len(subs) == 1, "" if subs else "clone queries must use the node's data_id"))
     h = m.func("Node.is_clone")
-    ok = any(isinstance(n, ast.Compare) and isinstance(n.ops[0], ast.Gt) and norm(n.comparators[0]) == "1" and norm(n.left).startswith("len(") for n in iter_own(h.node))
+    ok = has("len($$x) > 1", h.node) or has("len($$x) >= 2", h.node)
     obs.append(ctx.ob("DATAID-DEF", ["C02"], h, "is_clone: more than one node under the id", None, ok, "" if ok else "a clone is a node whose data is referenced at least twice"))
     h = m.func("Node.get_clones")
-    t = " | ".join(norm(s) for s in h.body)
-    ok = "if add_self: return clones.copy()" in t and "return [n for n in clones if n is not self]" in t
-    obs.append(ctx.ob("DATAID-DEF", ["C02"], h, "get_clones: a copy of the clone list, without self unless add_self", None, ok, "" if ok else ""))
+    a = one("$c = self._tree._nodes_by_data_id[self._data_id]", h.node)
+    ok = a is not None
+    if ok:
+        env = {"$c": a[1]["$c"]}
+        ok = has("if add_self:\n    return $c.copy()", h.node, env) or has("if add_self:\n    return list($c)", h.node, env)
+        ok = ok and any(match("[$n for $n in $c if $n is not self]", r.value, env) is not None for r in _returns(h))
+    obs.append(ctx.ob("DATAID-DEF", ["C02"], h, "get_clones: a copy of the clone list, without self (by identity) unless add_self", None, ok,
+                      "" if ok else "the result must be a new list; self is excluded by identity"))
     return obs
 
 
@@ -127,39 +154,48 @@ def kind_branch(ctx: Ctx) -> List[Ob]:
     """kind-aware queries: the any-kind branch reads the unfiltered child/sibling list, the kind branch compares _kind with the requested (or own) kind, and nothing else is filtered"""
     obs: List[Ob] = []
     m = ctx.model
-    # methods with a `kind` parameter
     for name in ("get_children", "first_child", "last_child", "has_children"):
         f = m.func(f"TypedNode.{name}")
-        anyk = [n for n in iter_own(f.node) if isinstance(n, ast.If) and norm(n.test) == "kind is ANY_KIND"]
-        ok = len(anyk) == 1
+        anyk = [n for n in iter_own(f.node) if isinstance(n, ast.If) and match("kind is ANY_KIND", n.test) is not None]
+        ok = len(anyk) == 1 and isinstance(anyk[0].body[0], ast.Return)
         if ok:
-            r = anyk[0].body[0]
-            want = {"get_children": ["all_children"], "first_child": ["all_children[0]"], "last_child": ["all_children[-1]"],
-                    "has_children": ["bool(self._children)"]}[name]
-            ok = isinstance(r, ast.Return) and norm(r.value) in want
+            r = anyk[0].body[0].value
+            # the local holding the full child list
+            al = one("$a = self._children", f.node)
+            a = al[1]["$a"] if al else "self._children"
+            want = {"get_children": [a], "first_child": [f"{a}[0]"], "last_child": [f"{a}[-1]"],
+                    "has_children": ["bool(self._children)", f"bool({a})"]}[name]
+            ok = any(match(w, r) is not None for w in want)
         obs.append(ctx.ob("KIND-BRANCH", ["C15"], f, f"{name}(ANY_KIND) equals the untyped query", None, ok, "" if ok else "with the any-kind option the result is the untyped one"))
-        cmps = [n for n in ast.walk(f.node) if isinstance(n, ast.Compare) and len(n.ops) == 1 and norm(n.comparators[0]) == "kind" and "_kind" in norm(n.left)]
         if name == "has_children":
-            ok = any(isinstance(n, ast.Call) and norm(n) == "self.get_children(kind)" for n in ast.walk(f.node))
+            ok = has("self.get_children(kind)", f.node)
         else:
-            ok = len(cmps) == 1 and isinstance(cmps[0].ops[0], ast.Eq)
+            cmps = find("$n._kind == kind", f.node) + find("$n.kind == kind", f.node)
+            ok = len(cmps) == 1
         obs.append(ctx.ob("KIND-BRANCH", ["C15"], f, f"{name}(kind) selects children whose _kind == kind", None, ok, "" if ok else "the kind filter must be equality on the node's kind"))
     f = m.func("TypedNode.first_child")
+    al = one("$a = self._children", f.node)
     lps = [n for n in iter_own(f.node) if isinstance(n, ast.For)]
-    ok = len(lps) == 1 and norm(lps[0].iter) == "all_children"
+    ok = al is not None and len(lps) == 1 and match("$a", lps[0].iter, {"$a": al[1]["$a"]}) is not None
     obs.append(ctx.ob("KIND-BRANCH", ["C15"], f, "first_child scans the full child list front to back", None, ok, ""))
     f = m.func("TypedNode.last_child")
+    al = one("$a = self._children", f.node)
     lps = [n for n in iter_own(f.node) if isinstance(n, ast.For)]
-    ok = len(lps) == 1 and norm(lps[0].iter) in ("range(len(all_children) - 1, -1, -1)", "reversed(all_children)")
+    ok = al is not None and len(lps) == 1 and (match("range(len($a) - 1, -1, -1)", lps[0].iter, {"$a": al[1]["$a"]}) is not None
+                                               or match("reversed($a)", lps[0].iter, {"$a": al[1]["$a"]}) is not None)
     obs.append(ctx.ob("KIND-BRANCH", ["C15"], f, "last_child scans the full child list back to front", None, ok, "" if ok else "the last child of a kind is found from the end, including index 0"))
-    # methods with any_kind
     for name in ("get_siblings", "first_sibling", "last_sibling", "prev_sibling", "next_sibling", "get_index", "is_first_sibling", "is_last_sibling"):
         f = m.func(f"TypedNode.{name}")
         d = f.param_default("any_kind")
         ok = d is not None and norm(d) == "False"
         obs.append(ctx.ob("KIND-BRANCH", ["C15"], f, f"{name}: any_kind defaults to False", None, ok, "" if ok else "kind-aware by default"))
+        own = {"self._kind", "self.kind"}
+        for b in ctx.env.scope(f).bindings.items():
+            if any(x.kind == "val" and x.expr is not None and norm(x.expr) in ("self.kind", "self._kind") for x in b[1]):
+                own.add(b[0])
         cmps = [n for n in ast.walk(f.node) if isinstance(n, ast.Compare) and len(n.ops) == 1 and isinstance(n.ops[0], ast.Eq)
-                and {norm(n.left).split(".")[-1], norm(n.comparators[0]).split(".")[-1]} <= {"_kind", "kind", "rel"}]
+                and ((norm(n.comparators[0]) in own and norm(n.left).split(".")[-1] in ("_kind", "kind"))
+                     or (norm(n.left) in own and norm(n.comparators[0]).split(".")[-1] in ("_kind", "kind")))]
         deleg = [c for c in ast.walk(f.node) if isinstance(c, ast.Call) and isinstance(c.func, ast.Attribute)
                  and c.func.attr in ("first_sibling", "last_sibling", "get_children") and norm(c.func.value) in ("self", "self.parent", "self._parent")]
         ok = bool(cmps) or bool(deleg)
@@ -167,24 +203,33 @@ def kind_branch(ctx: Ctx) -> List[Ob]:
                           "" if ok else "siblings of the same kind only"))
     f = m.func("TypedNode.get_siblings")
     lc = [n for n in iter_own(f.node) if isinstance(n, ast.ListComp)]
-    ok = len(lc) == 1 and norm(lc[0].generators[0].ifs[0]) in ("(add_self or n is not self) and n.kind == rel", "(add_self or n is not self) and n._kind == self._kind")
+    ok = False
+    if len(lc) == 1 and lc[0].generators and lc[0].generators[0].ifs:
+        c = lc[0].generators[0].ifs[0]
+        ok = match("(add_self or $n is not self) and $n.kind == $k", c) is not None or match("(add_self or $n is not self) and $n._kind == self._kind", c) is not None \
+            or match("(add_self or $n is not self) and $n._kind == $k", c) is not None
     obs.append(ctx.ob("KIND-BRANCH", ["C15"], f, "get_siblings: same kind, self excluded by identity unless add_self", None, ok, ""))
     for name, idx in (("is_first_sibling", "0"), ("is_last_sibling", "-1")):
         f = m.func(f"TypedNode.{name}")
-        anyk = [n for n in f.body if isinstance(n, ast.If) and norm(n.test) == "any_kind"]
-        ok = len(anyk) == 1 and norm(anyk[0].body[0]) == f"return self is self._parent._children[{idx}]"
+        ok = has(f"if any_kind:\n    return self is self._parent._children[{idx}]", f.node)
         obs.append(ctx.ob("KIND-BRANCH", ["C15"], f, f"{name}(any_kind=True) is the untyped identity test", None, ok, ""))
     for name, idx in (("first_sibling", "0"), ("last_sibling", "-1")):
         f = m.func(f"TypedNode.{name}")
-        anyk = [n for n in f.body if isinstance(n, ast.If) and norm(n.test) == "any_kind"]
-        ok = len(anyk) == 1 and norm(anyk[0].body[0]) == f"return pc[{idx}]"
+        al = one("$pc = self._parent._children", f.node)
+        ok = al is not None and has(f"if any_kind:\n    return $pc[{idx}]", f.node, {"$pc": al[1]["$pc"]})
+        ok = ok or has(f"if any_kind:\n    return self._parent._children[{idx}]", f.node)
         obs.append(ctx.ob("KIND-BRANCH", ["C15"], f, f"{name}(any_kind=True) is the untyped end of the list", None, ok, ""))
     f = m.func("TypedTree.iter_by_type")
-    ok = any(isinstance(n, ast.Compare) and norm(n) == "n._kind == kind" for n in ast.walk(f.node))
+    ok = has("$n._kind == kind", f.node) or has("$n.kind == kind", f.node)
     obs.append(ctx.ob("KIND-BRANCH", ["C15"], f, "iter_by_type yields the nodes whose _kind == kind", None, ok, ""))
+    # a generator that `return <value>`s loses the value: the ANY_KIND branch must yield
+    gen = any(isinstance(x, (ast.Yield, ast.YieldFrom)) for x in iter_own(f.node))
+    bad = [r for r in _returns(f)] if gen else []
+    obs.append(ctx.ob("KIND-BRANCH", ["C15"], f, "iter_by_type(ANY_KIND) yields every node", None, not bad,
+                      "" if not bad else f"`{norm(bad[0])}` inside a generator function: the returned iterator is discarded and nothing is yielded"))
     for q in ("TypedTree.first_child", "TypedTree.last_child"):
         f = m.func(q)
-        ok = any(isinstance(n, ast.Return) and norm(n.value) == f"self._root.{f.name}(kind=kind)" for n in f.body)
+        ok = any(match(f"self._root.{f.name}(kind=kind)", n.value) is not None or match(f"self._root.{f.name}(kind)", n.value) is not None for n in _returns(f))
         obs.append(ctx.ob("KIND-BRANCH", ["C15"], f, f"{q} delegates to the root with the caller's kind", None, ok, ""))
     return obs
 
@@ -202,40 +247,45 @@ def parent_walk(ctx: Ctx) -> List[Ob]:
 
     f = m.func("Node.calc_depth")
     w = wh(f)
-    ok = w is not None and norm(w.test) == "pe is not None" and [norm(s) for s in w.body] == ["depth += 1", "pe = pe._parent"] \
-        and any(norm(s) == "pe = self._parent" for s in f.body) and any(norm(s) == "depth = 0" for s in f.body)
+    e = match("while $p is not None:\n    $d += 1\n    $p = $p._parent", w) if w is not None else None
+    ok = e is not None and has("$p = self._parent", f.node, e) and has("$d = 0", f.node, e) and any(match("$d", r.value, e) is not None for r in _returns(f))
     obs.append(ctx.ob("PARENT-WALK", ["C10"], f, "calc_depth counts the parents up to and including the system root (1 for top-level)", None, ok, "" if ok else "depth off by one"))
     f = m.func("Node.get_top")
     w = wh(f)
-    ok = w is not None and norm(w.test) == "root._parent._parent" and [norm(s) for s in w.body] == ["root = root._parent"]
+    e = match("while $r._parent._parent:\n    $r = $r._parent", w) if w is not None else None
+    ok = e is not None and has("$r = self", f.node, e) and any(match("$r", r.value, e) is not None for r in _returns(f))
     obs.append(ctx.ob("PARENT-WALK", ["C10"], f, "get_top climbs while the parent is not the system root", None, ok, ""))
-    for q, start in (("Node.is_descendant_of", "parent = self._parent"), ("Node.get_parent_list", "parent = self if add_self else self._parent")):
+    for q, start in (("Node.is_descendant_of", "$p = self._parent"), ("Node.get_parent_list", "$p = self if add_self else self._parent")):
         f = m.func(q)
         w = wh(f)
-        ok = w is not None and norm(w.test) == "parent is not None and parent._parent is not None" and norm(w.body[-1]) == "parent = parent._parent" \
-            and any(norm(s) == start for s in f.body)
+        e = match("$p is not None and $p._parent is not None", w.test) if w is not None else None
+        ok = e is not None and match("$p = $p._parent", w.body[-1], e) is not None and has(start, f.node, e)
         obs.append(ctx.ob("PARENT-WALK", ["C10"], f, f"{q} walks the proper ancestors and stops before the system root", None, ok, "" if ok else "the system root is not an ancestor"))
     f = m.func("Node.is_descendant_of")
-    ok = any(isinstance(n, ast.If) and norm(n.test) == "parent is other" and norm(n.body[0]) == "return True" for n in ast.walk(f.node)) \
-        and norm(f.body[-1]) == "return False"
+    o = _first_param(f)
+    ok = has(f"if $p is {o}:\n    return True", f.node) and match("return False", f.body[-1]) is not None
     obs.append(ctx.ob("PARENT-WALK", ["C10"], f, "is_descendant_of compares ancestors by identity", None, ok, ""))
     f = m.func("Node.is_ancestor_of")
-    ok = any(isinstance(n, ast.Return) and norm(n.value) == "other.is_descendant_of(self)" for n in f.body)
+    o = _first_param(f)
+    ok = any(match(f"{o}.is_descendant_of(self)", n.value) is not None for n in _returns(f))
     obs.append(ctx.ob("PARENT-WALK", ["C10"], f, "is_ancestor_of is the converse of is_descendant_of", None, ok, ""))
     f = m.func("Node.get_parent_list")
-    t = [norm(s) for s in f.body]
-    ok = any(s.startswith("if not bottom_up:") and "res.reverse()" in s for s in t) and "return res" in t
+    e = one("$res.append($p)", f.node)
+    ok = e is not None and has("if not bottom_up:\n    $res.reverse()", f.node, {"$res": e[1]["$res"]}) and any(match("$res", r.value, {"$res": e[1]["$res"]}) is not None for r in _returns(f))
     obs.append(ctx.ob("PARENT-WALK", ["C10"], f, "get_parent_list is top-down unless bottom_up", None, ok, ""))
     for q in ("Node.parent", "TypedNode.parent"):
         f = m.func(q)
-        ok = any(isinstance(n, ast.Return) and norm(n.value) in ("p if p._parent else None", "p if p._parent is not None else None") for n in f.body) \
-            and any(norm(s) == "p = self._parent" for s in f.body)
-        obs.append(ctx.ob("PARENT-WALK", ["C10", "C15"], f, f"{q}: None for top-level nodes", None, ok, ""))
+        ok = False
+        for r in _returns(f):
+            e = match("$p if $p._parent else None", r.value) or match("$p if $p._parent is not None else None", r.value)
+            if e is not None and has("$p = self._parent", f.node, e):
+                ok = True
+        obs.append(ctx.ob("PARENT-WALK", ["C10", "C15"] if q.startswith("Typed") else ["C10"], f, f"{q}: None for top-level nodes", None, ok, ""))
     f = m.func("Node.up")
     w = wh(f)
-    ok = w is not None and norm(w.test) == "level > 0" and "p = p._parent" in [norm(s) for s in w.body] and "level -= 1" in [norm(s) for s in w.body]
+    ok = w is not None and match("level > 0", w.test) is not None and has("$p = $p._parent", w) and has("level -= 1", w)
     obs.append(ctx.ob("PARENT-WALK", ["C10"], f, "up(n) climbs n parents", None, ok, ""))
-    # end-of-list accessors
+    # end-of-list accessors: API names only, no locals
     want = {
         "Node.first_child": "self._children[0] if self._children else None",
         "Node.last_child": "self._children[-1] if self._children else None",
@@ -254,36 +304,36 @@ def parent_walk(ctx: Ctx) -> List[Ob]:
     }
     for q, txt in want.items():
         f = m.func(q)
-        rets = [n for n in iter_own(f.node) if isinstance(n, ast.Return) and n.value is not None]
-        ok = len(rets) == 1 and norm(rets[0].value) == txt
+        rets = _returns(f)
+        ok = len(rets) == 1 and match(txt, rets[0].value) is not None
         props = ["C10", "C02"] if q.startswith("Tree.count") else ["C10"]
         obs.append(ctx.ob("PARENT-WALK", props, f, f"{q} returns `{txt}`", None, ok, "" if ok else f"got `{norm(rets[0].value) if rets else '?'}`"))
     f = m.func("Node.prev_sibling")
-    ok = any(norm(s).startswith("if self.is_first_sibling(): return None") for s in f.body) and any(isinstance(n, ast.Return) and norm(n.value).endswith("[idx - 1]") for n in f.body)
+    ok = has("if self.is_first_sibling():\n    return None", f.node) and any(match("$$l[$i - 1]", r.value) is not None for r in _returns(f))
     obs.append(ctx.ob("PARENT-WALK", ["C10"], f, "prev_sibling: None for the first, else the element before", None, ok, ""))
     f = m.func("Node.next_sibling")
-    ok = any(norm(s).startswith("if self.is_last_sibling(): return None") for s in f.body) and any(isinstance(n, ast.Return) and norm(n.value).endswith("[idx + 1]") for n in f.body)
+    ok = has("if self.is_last_sibling():\n    return None", f.node) and any(match("$$l[$i + 1]", r.value) is not None for r in _returns(f))
     obs.append(ctx.ob("PARENT-WALK", ["C10"], f, "next_sibling: None for the last, else the element after", None, ok, ""))
     f = m.func("Node.get_siblings")
-    ok = any(isinstance(n, ast.ListComp) and norm(n.generators[0].ifs[0]) == "n is not self" and norm(n.generators[0].iter) == "self._parent._children" for n in ast.walk(f.node))
+    ok = has("[$n for $n in self._parent._children if $n is not self]", f.node)
     obs.append(ctx.ob("PARENT-WALK", ["C10"], f, "get_siblings excludes self by identity", None, ok, ""))
     f = m.func("Node.count_descendants")
     lps = [n for n in iter_own(f.node) if isinstance(n, ast.For)]
-    ok = len(lps) == 1 and norm(lps[0].iter) == "self.iterator()" and norm(lps[0].body[0]) .startswith("if all or not node._children: i += 1")
+    ok = len(lps) == 1 and match("self.iterator()", lps[0].iter) is not None and len(lps[0].body) == 1 \
+        and match("if $a or not $n._children:\n    $i += 1", lps[0].body[0]) is not None
     obs.append(ctx.ob("PARENT-WALK", ["C10"], f, "count_descendants counts the walk (leaves only: nodes without children)", None, ok, ""))
     f = m.func("Node.calc_height")
-    g = [x for x in f.nested if x.name == "_ch"]
-    ok = bool(g)
+    g = [x for x in f.nested]
+    ok = len(g) == 1
     if ok:
-        t = " | ".join(norm(s) for s in g[0].body)
-        ok = "_ch(n, h + 1)" in t and "elif h > height: height = h" in t and any(norm(s) == "_ch(self, 0)" for s in f.body)
+        gn = g[0].name
+        ok = has(f"{gn}($n, $h + 1)", g[0].node) and has("$h > $H", g[0].node) and has(f"{gn}(self, 0)", f.node)
     obs.append(ctx.ob("PARENT-WALK", ["C10"], f, "calc_height: maximal leaf depth below self (0 for leaves)", None, ok, ""))
     f = m.func("Node.get_common_ancestor")
-    calls = {norm(c) for c in ast.walk(f.node) if isinstance(c, ast.Call)}
-    tests = {norm(n.test) for n in ast.walk(f.node) if isinstance(n, ast.If)}
-    ok = "self._tree is other._tree" in tests and "other.get_parent_list(add_self=True)" in calls and "self.get_parent_list(add_self=True, bottom_up=True)" in calls \
-        and norm(f.body[-1]) == "return None"
-    obs.append(ctx.ob("PARENT-WALK", ["C10"], f, "get_common_ancestor: nearest (bottom-up) own ancestor-or-self that is also one of other's", None, ok, ""))
+    o = _first_param(f)
+    ok = has(f"self._tree is {o}._tree", f.node) and has(f"{o}.get_parent_list(add_self=True)", f.node) and has("self.get_parent_list(add_self=True, bottom_up=True)", f.node) \
+        and match("return None", f.body[-1]) is not None and has("$p._node_id in $s", f.node)
+    obs.append(ctx.ob("PARENT-WALK", ["C10"], f, "get_common_ancestor: nearest (bottom-up) own ancestor-or-self whose node_id is among other's", None, ok, ""))
     return obs
 
 
@@ -313,41 +363,41 @@ def frame(ctx: Ctx) -> List[Ob]:
         obs.append(ctx.ob("FRAME", ["C04"], f, f"{q} writes only {sorted(allowed)}", None, not es,
                           "" if not es else f"also writes: {es[0].describe()} - every other node must keep its identity, data, id, metadata, parent and order"))
     f = m.func("Node.set_meta")
-    ch = _if_chain([n for n in f.body if isinstance(n, ast.If)][0])
-    tb = {(norm(t) if t is not None else "else"): " ; ".join(norm(s) for s in b) for t, b in ch}
-    ok = tb.get("value is None") == "self.clear_meta(key)" and tb.get("self._meta is None") == "self._meta = {key: value}" and tb.get("else") == "self._meta[key] = value"
-    obs.append(ctx.ob("FRAME", ["C04"], f, "set_meta: None removes the key, first value creates the dict, else stores", None, ok, "" if ok else f"{tb}"))
+    ifs = [n for n in f.body if isinstance(n, ast.If)]
+    tb = {}
+    if ifs:
+        tb = {(norm(t) if t is not None else "else"): b for t, b in _if_chain(ifs[0])}
+    ok = len(tb) == 3 and "value is None" in tb and "self._meta is None" in tb and "else" in tb \
+        and len(tb["value is None"]) == 1 and match("self.clear_meta(key)", tb["value is None"][0]) is not None \
+        and len(tb["self._meta is None"]) == 1 and match("self._meta = {key: value}", tb["self._meta is None"][0]) is not None \
+        and len(tb["else"]) == 1 and match("self._meta[key] = value", tb["else"][0]) is not None
+    obs.append(ctx.ob("FRAME", ["C04"], f, "set_meta: None removes the key, first value creates the dict, else stores", None, ok, "" if ok else "metadata edit semantics changed"))
     f = m.func("Node.clear_meta")
-    t = " | ".join(norm(s) for s in f.body)
-    ok = "if key is None: self._meta = None return" in t and "m.pop(key, None)" in t and "if len(m) == 0: self._meta = None" in t
+    e = one("$m = self._meta", f.node)
+    ok = has("if key is None:\n    self._meta = None\n    return", f.node) and e is not None \
+        and has("$m.pop(key, None)", f.node, {"$m": e[1]["$m"]}) and has("if len($m) == 0:\n    self._meta = None", f.node, {"$m": e[1]["$m"]})
     obs.append(ctx.ob("FRAME", ["C04"], f, "clear_meta: all or one key; an emptied dict becomes None again", None, ok, ""))
     f = m.func("Node.update_meta")
-    ifs = [n for n in f.body if isinstance(n, ast.If)]
-    ok = len(ifs) == 1 and norm(ifs[0].test) == "replace or self._meta is None" and norm(ifs[0].body[0]) == "self._meta = values.copy()" and norm(ifs[0].orelse[0]) == "self._meta.update(values)"
+    ok = has("if replace or self._meta is None:\n    self._meta = values.copy()\nelse:\n    self._meta.update(values)", f.node)
     obs.append(ctx.ob("FRAME", ["C04"], f, "update_meta: replace stores a copy of the caller's dict, else merges", None, ok, ""))
     f = m.func("Node.sort_children")
     srt = [c for c in ctx.env.calls_in[f] if isinstance(c.func, ast.Attribute) and c.func.attr == "sort"]
-    ok = len(srt) == 1 and {k.arg: norm(k.value) for k in srt[0].keywords} == {"key": "key", "reverse": "reverse"}
+    ok = len(srt) == 1 and {k.arg: norm(k.value) for k in srt[0].keywords} == {"key": "key", "reverse": "reverse"} and not srt[0].args
     obs.append(ctx.ob("FRAME", ["C04"], f, "sort_children sorts the child list in place with the caller's key and direction", None, ok, ""))
-    dflt = [n for n in f.body if isinstance(n, ast.If) and norm(n.test) == "key is None"]
-    ok = len(dflt) == 1 and norm(dflt[0].body[0]) == "key = attrgetter('name')"
+    ok = has("if key is None:\n    key = attrgetter('name')", f.node)
     obs.append(ctx.ob("FRAME", ["C04"], f, "default sort key is the node name", None, ok, ""))
-    rec = [n for n in f.body if isinstance(n, ast.If) and norm(n.test) == "deep"]
-    ok = len(rec) == 1 and isinstance(rec[0].body[0], ast.For) and norm(rec[0].body[0].iter) in ("cl", "self._children") \
-        and norm(rec[0].body[0].body[0]) == f"{norm(rec[0].body[0].target)}.sort_children(key=key, reverse=reverse, deep=True)"
+    ok = has("if deep:\n    for $c in $$l:\n        $c.sort_children(key=key, reverse=reverse, deep=True)", f.node)
     obs.append(ctx.ob("FRAME", ["C04"], f, "deep sort recurses into every child with the same key and direction", None, ok, ""))
     f = m.func("Node.rename")
-    ok = any(isinstance(n, ast.If) and norm(n.test) == "isinstance(self._data, str)" and norm(n.body[0]) == "return self.set_data(new_name)" for n in f.body)
+    ok = has(f"if isinstance(self._data, str):\n    return self.set_data({_first_param(f)})", f.node)
     obs.append(ctx.ob("FRAME", ["C04"], f, "rename is set_data(new_name) for plain string nodes", None, ok, ""))
-    # set_data: which nodes receive the new data / id
     f = m.func("Node.set_data")
     loops = [n for n in ast.walk(f.node) if isinstance(n, ast.For) and any(
         isinstance(x, ast.Assign) and any(isinstance(t, ast.Attribute) and t.attr in ("_data", "_data_id") for t in x.targets)
         for st in n.body for x in ast.walk(st))]
     ok = all(isinstance(m.parent_of(lp), ast.If) and norm(m.parent_of(lp).test) == "with_clones" for lp in loops) and len(loops) == 2
     obs.append(ctx.ob("FRAME", ["C04", "C02"], f, "set_data touches the other clones only under with_clones", None, ok, "" if ok else "without with_clones exactly this node changes"))
-    t = " | ".join(norm(s) for s in f.body)
-    ok = "if has_clones and with_clones is None: raise AmbiguousMatchError(" in t
+    ok = has("if $h and with_clones is None:\n    raise AmbiguousMatchError($_)", f.node)
     obs.append(ctx.ob("FRAME", ["C04", "C13"], f, "set_data on a clone requires a with_clones decision", None, ok, ""))
     return obs
 
@@ -360,6 +410,7 @@ def fs(ctx: Ctx) -> List[Ob]:
     m = ctx.model
     f = m.func("load_tree_from_fs.visit")
     top = m.func("load_tree_from_fs")
+    nparam, pparam = f.positional_params()[:2]
     ifs = [n for n in f.body if isinstance(n, ast.If) and norm(n.test) == "sort"]
     if len(ifs) != 1:
         raise AnalysisError("load_tree_from_fs.visit: `if sort:` branch not found")
@@ -370,44 +421,57 @@ def fs(ctx: Ctx) -> List[Ob]:
 
     def ctor_shapes(stmts) -> Set[str]:
         out = set()
-        for s in stmts:
-            for c in ast.walk(s):
-                if isinstance(c, ast.Call) and norm(c.func) == "FileSystemEntry":
-                    kw = tuple(sorted((k.arg, norm(k.value)) for k in c.keywords))
-                    out.add(f"{norm(c.args[0]).replace('f', '', 1) if norm(c.args[0]).startswith('f') else norm(c.args[0])}|{kw}")
+        for c, e in find("FileSystemEntry($$a, is_dir=True)", stmts):
+            out.add("dir")
+        for c, e in find("FileSystemEntry($$a, size=$s.st_size, mdate=$s.st_mtime)", stmts):
+            out.add("file")
+        n_all = len([c for s in stmts for c in ast.walk(s) if isinstance(c, ast.Call) and norm(c.func) == "FileSystemEntry"])
+        if n_all != 2:
+            out.add(f"{n_all} constructor calls")
         return out
 
     a, b = ctor_shapes(sorted_part), ctor_shapes(unsorted_part)
-    ok = a == b and len(a) == 2
-    obs.append(ctx.ob("FS", ["C19"], f, "sorted and unsorted branch construct the same two entry shapes", None, ok, "" if ok else f"sorted: {sorted(a)} / unsorted: {sorted(b)}"))
-    ok = any("('mdate', 'stat.st_mtime'), ('size', 'stat.st_size')" in x for x in a) and any("('is_dir', 'True')" in x for x in a)
-    obs.append(ctx.ob("FS", ["C19"], f, "files carry size<-st_size and mdate<-st_mtime, directories the directory flag", None, ok, "" if ok else "attributes crossed"))
+    ok = a == b == {"dir", "file"}
+    obs.append(ctx.ob("FS", ["C19"], f, "sorted and unsorted branch construct the same two entry shapes (dir flag / size<-st_size, mdate<-st_mtime)", None, ok,
+                      "" if ok else f"sorted: {sorted(a)} / unsorted: {sorted(b)}"))
     for part, nm in ((sorted_part, "sorted"), (unsorted_part, "unsorted")):
-        recs = [c for s in part for c in ast.walk(s) if isinstance(c, ast.Call) and norm(c.func) == "visit"]
-        ok = len(recs) == 1 and norm(recs[0].args[0]) == "pn" and norm(recs[0].args[1]) == "c"
-        pn = [st for s in part for st in ast.walk(s) if isinstance(st, ast.Assign) and norm(st.targets[0]) == "pn"]
-        ok = ok and len(pn) == 1 and norm(pn[0].value) == "node.add(o)"
+        recs = [c for s in part for c in ast.walk(s) if isinstance(c, ast.Call) and norm(c.func) == f.name]
+        ok = len(recs) == 1 and len(recs[0].args) == 2
+        if ok:
+            pn = one(f"$pn = {nparam}.add($o)", part) or one(f"$pn = {nparam}.add_child($o)", part)
+            ok = pn is not None and match("$pn", recs[0].args[0], {"$pn": pn[1]["$pn"]}) is not None
         obs.append(ctx.ob("FS", ["C19"], f, f"{nm}: each directory is added and scanned once, below its own node", None, ok, "" if ok else "sub-directories must appear at the corresponding depth"))
-        tests = [norm(n.test) for s in part for n in ast.walk(s) if isinstance(n, ast.If) and "is_" in norm(n.test)]
-        ok = tests == ["c.is_dir()", "c.is_file()"]
+        tests = [norm(n.test).split(".")[-1] for s in part for n in ast.walk(s) if isinstance(n, ast.If) and "is_" in norm(n.test)]
+        ok = tests == ["is_dir()", "is_file()"]
         obs.append(ctx.ob("FS", ["C19"], f, f"{nm}: directories and regular files are classified by is_dir()/is_file()", None, ok, ""))
-    loops = [s for s in sorted_part if isinstance(s, ast.For) and "sorted(" in norm(s.iter)]
-    ok = len(loops) == 2 and norm(loops[0].iter) == "sorted(files, key=attrgetter('name'))" and norm(loops[1].iter) == "sorted(dirs, key=itemgetter(0))" \
-        and norm(loops[0].body[0]) == "node.add(o)"
+    loops = [s for s in sorted_part if isinstance(s, ast.For) and isinstance(s.iter, ast.Call) and norm(s.iter.func) == "sorted"]
+    ok = len(loops) == 2
+    if ok:
+        e1 = match("sorted($files, key=attrgetter('name'))", loops[0].iter)
+        e2 = match("sorted($dirs, key=itemgetter(0))", loops[1].iter)
+        ok = e1 is not None and e2 is not None and len(loops[0].body) == 1 and (match(f"{nparam}.add($o)", loops[0].body[0]) is not None)
+        if ok:
+            # files are FileSystemEntry objects, dirs are (path, entry) pairs
+            ok = has("$files.append($o)", sorted_part, e1) and has("$dirs.append(($c, $o))", sorted_part, e2)
     obs.append(ctx.ob("FS", ["C19"], f, "sorted: files first (by name), then directories (by path name)", None, ok, "" if ok else "files first, name-sorted, then sub-directories, name-sorted"))
-    ok = any(norm(s) == "visit(tree._root, path)" for s in top.body) and any(norm(s) == "tree = FileSystemTree(str(path))" for s in top.body)
+    e = one("$t = FileSystemTree(str(path))", top.node)
+    ok = e is not None and has(f"{f.name}($t._root, path)", top.node, {"$t": e[1]["$t"]}) and any(match("$t", r.value, {"$t": e[1]["$t"]}) is not None for r in _returns(top))
     obs.append(ctx.ob("FS", ["C19"], top, "the scan starts at the root with the given path and builds a FileSystemTree", None, ok, ""))
     e = m.func("FileSystemEntry.__init__")
-    t = " | ".join(norm(s) for s in e.body)
-    ok = "self.name = name" in t and "self.is_dir = is_dir" in t and "self.size = int(size)" in t and "self.mdate = float(mdate) if mdate is not None else None" in t
-    obs.append(ctx.ob("FS", ["C19"], e, "FileSystemEntry stores name, is_dir, size, mdate", None, ok, ""))
+    ok = has("self.name = name", e.node) and has("self.is_dir = is_dir", e.node) and has("self.size = int(size)", e.node) \
+        and has("self.mdate = float(mdate) if mdate is not None else None", e.node)
+    obs.append(ctx.ob("FS", ["C19"], e, "FileSystemEntry stores name, is_dir, size, mdate (mdate 0.0 is a value)", None, ok, ""))
     sm, dm = m.func("FileSystemTree.serialize_mapper"), m.func("FileSystemTree.deserialize_mapper")
-    t = " | ".join(norm(s) for s in sm.body)
-    ok = "data.update({'n': inst.name, 'd': True})" in t and "data.update({'n': inst.name, 's': inst.size, 'm': inst.mdate})" in t and "if inst.is_dir" in t
+    e = one("$i = node.data", sm.node)
+    ok = e is not None and has("if $i.is_dir:\n    data.update({'n': $i.name, 'd': True})\nelse:\n    data.update({'n': $i.name, 's': $i.size, 'm': $i.mdate})", sm.node, {"$i": e[1]["$i"]})
     obs.append(ctx.ob("FS", ["C19", "C05"], sm, "serialize: directories {n, d}, files {n, s<-size, m<-mdate}", None, ok, ""))
-    t = " | ".join(norm(s) for s in dm.body)
-    ok = "if 'd' in data: return FileSystemEntry(data['n'], is_dir=True)" in t and "return FileSystemEntry(data['n'], size=data['s'], mdate=data['m'])" in t
+    ok = has("if 'd' in data:\n    return FileSystemEntry(data['n'], is_dir=True)", dm.node) and has("return FileSystemEntry(data['n'], size=data['s'], mdate=data['m'])", dm.node)
     obs.append(ctx.ob("FS", ["C19", "C05"], dm, "deserialize mirrors serialize (d -> directory; s -> size, m -> mdate)", None, ok, ""))
+    # FileSystemEntry must not define data equality: equal entries would become clones
+    fe = m.classes.get("FileSystemEntry")
+    bad = [n for n in (fe.methods if fe else {}) if n in ("__eq__", "__hash__")]
+    obs.append(ctx.ob("FS", ["C19", "C05"], "fs:FileSystemEntry", "entries are compared by identity (no __eq__/__hash__): distinct files never become clones", None, not bad,
+                      "" if not bad else f"{bad}: two files with equal attributes would be stored as one clone group and share attributes after save/load"))
     return obs
 
 
@@ -423,64 +487,100 @@ def gen(ctx: Ctx) -> List[Ob]:
     for f in gens:
         stm = [s for s in f.body if not (isinstance(s, ast.Expr) and isinstance(s.value, ast.Constant))]
         first = stm[0]
-        ok = isinstance(first, ast.If) and norm(first.test) == "self._skip_value()" and isinstance(first.body[0], ast.Return)
+        ok = isinstance(first, ast.If) and match("self._skip_value()", first.test) is not None and isinstance(first.body[0], ast.Return)
         if ok:
             rv = first.body[0].value
             ok = rv is None or norm(rv) in ("None", "self.none_value")
         obs.append(ctx.ob("GEN", ["C20"], f, f"{f.qualname} tests the skip probability before producing a value", None, ok,
                           "" if ok else "attributes skipped by probability must be absent"))
+    # every subclass constructor forwards `probability` to the base class
+    for c in m.classes.values():
+        if "Randomizer" in c.mro and c.name != "Randomizer" and "__init__" in c.methods:
+            f = c.methods["__init__"]
+            if "probability" not in f.param_names():
+                continue
+            sup = [x for x in ctx.env.calls_in[f] if isinstance(x.func, ast.Attribute) and x.func.attr == "__init__"
+                   and isinstance(x.func.value, ast.Call) and norm(x.func.value.func) == "super"]
+            ok = len(sup) == 1 and any(k.arg == "probability" and norm(k.value) == "probability" for k in sup[0].keywords)
+            obs.append(ctx.ob("GEN", ["C20"], f, f"{c.name}.__init__ forwards probability to the base class", None, ok,
+                              "" if ok else "a randomizer that drops its probability never skips"))
     f = m.func("Randomizer._skip_value")
-    t = " | ".join(norm(s) for s in f.body)
-    ok = "use = self.probability == 1.0 or random.random() <= self.probability" in t and "return not use" in t
+    e = one("$u = self.probability == 1.0 or random.random() <= self.probability", f.node)
+    ok = (e is not None and any(match("not $u", r.value, {"$u": e[1]["$u"]}) is not None for r in _returns(f))) \
+        or any(match("not (self.probability == 1.0 or random.random() <= self.probability)", r.value) is not None for r in _returns(f))
     obs.append(ctx.ob("GEN", ["C20"], f, "_skip_value: skip unless probability is 1 or the draw is within it", None, ok, ""))
     f = m.func("RangeRandomizer.generate")
-    t = " | ".join(norm(s) for s in f.body)
-    ok = "return random.uniform(self.min, self.max)" in t and "return random.randrange(self.min, self.max)" in t
+    ok = has("return random.uniform(self.min, self.max)", f.node) and has("return random.randrange(self.min, self.max)", f.node)
     obs.append(ctx.ob("GEN", ["C20"], f, "RangeRandomizer draws within [min, max)", None, ok, ""))
     f = m.func("_merge_specs")
-    t = [norm(s) for s in f.body]
-    ok = t == ["res = types.get('*', {}).copy()", "res.update(types.get(node_type, {}))", "res.update(spec)", "return res"]
+    nt, sp, ty = f.positional_params()[:3]
+    body = [s for s in f.body if not (isinstance(s, ast.Expr) and isinstance(s.value, ast.Constant))]
+    ok = len(body) == 4
+    if ok:
+        e = match(f"$r = {ty}.get('*', {{}}).copy()", body[0])
+        ok = e is not None and match(f"$r.update({ty}.get({nt}, {{}}))", body[1], e) is not None and match(f"$r.update({sp})", body[2], e) is not None \
+            and match("return $r", body[3], e) is not None
     obs.append(ctx.ob("GEN", ["C20"], f, "_merge_specs: global defaults, then type defaults, then the relation spec (on a copy)", None, ok, "" if ok else "merge order decides which value wins"))
     f = m.func("_resolve_random_dict")
+    d = f.positional_params()[0]
     lps = [n for n in f.body if isinstance(n, ast.For)]
-    ok = len(lps) == 2 and norm(lps[1].iter) == "remove" and norm(lps[1].body[0]) == "d.pop(key)"
+    ok = len(lps) == 2
+    rm = None
+    if ok:
+        e = match(f"for $k in $rm:\n    {d}.pop($k)", lps[1])
+        ok = e is not None
+        rm = e["$rm"] if e else None
     obs.append(ctx.ob("GEN", ["C20"], f, "skipped keys are removed after the scan (deferred)", None, ok, ""))
-    if lps:
-        t = " | ".join(norm(s) for s in lps[0].body)
-        ok = "val = val.generate()" in t and "if val is None: remove.append(key) else: d[key] = val" in t and "if macros and isinstance(val, str): d[key] = val.format(**macros)" in t
-        obs.append(ctx.ob("GEN", ["C20"], f, "randomizers are resolved, None results skipped, string values macro-expanded", None, ok, ""))
+    if lps and rm:
+        lp = lps[0]
+        k = norm(lp.target)
+        ok = has("$v = $v.generate()", lp) and has(f"if $v is None:\n    {rm}.append({k})\nelse:\n    {d}[{k}] = $v", lp) \
+            and has(f"if macros and isinstance($v, str):\n    {d}[{k}] = $v.format(**macros)", lp)
+        obs.append(ctx.ob("GEN", ["C20"], f, "randomizers are resolved, only None results are skipped (0/False/'' are values), string values macro-expanded", None, ok,
+                          "" if ok else "a legal falsy random value must not be dropped"))
     f = m.func("_make_tree")
-    t = " | ".join(norm(s) for s in ast.walk(f.node) if isinstance(s, ast.stmt) and not isinstance(s, (ast.For, ast.If, ast.FunctionDef)))
     checks = [
-        ("child_specs = relations[parent_type]", "children come from the parent type's relation"),
-        ("spec = _merge_specs(node_type, spec, types)", "attribute merge per child type"),
-        ("count = spec.pop(':count', 1)", "count defaults to 1"),
-        ("count = _resolve_random(count) or 0", "randomized counts are resolved"),
-        ("i += 1", "1-based sibling index"),
-        ("p = f'{prefix}.{i}' if prefix else f'{i}'", "dotted index path from the parent's prefix"),
-        ("data = spec.copy()", "each node gets its own attribute dict"),
-        ("_resolve_random_dict(data, macros={'idx': i, 'hier_idx': p})", "both macros supplied"),
-        ("node_data = factory(**data)", "node data built from the attributes"),
-        ("node = parent_node.add_child(node_data, kind=node_type)", "typed trees carry the type name as kind"),
-        ("node = parent_node.add_child(node_data)", "plain trees add the data"),
-        ("_make_tree(parent_node=node, parent_type=node_type, types=types, relations=relations, prefix=p)", "recursion below the new node with its type and prefix"),
+        ("$cs = relations[parent_type]", "children come from the parent type's relation"),
+        ("$s = _merge_specs($nt, $s, types)", "attribute merge per child type"),
+        ("$c = $s.pop(':count', 1)", "count defaults to 1"),
+        ("$c = _resolve_random($c) or 0", "randomized counts are resolved"),
+        ("$i += 1", "1-based sibling index"),
+        ("$p = f'{prefix}.{$i}' if prefix else f'{$i}'", "dotted index path from the parent's prefix"),
+        ("$d = $s.copy()", "each node gets its own attribute dict"),
+        ("_resolve_random_dict($d, macros={'idx': $i, 'hier_idx': $p})", "both macros supplied"),
+        ("$nd = $f(**$d)", "node data built from the attributes"),
+        ("$n = parent_node.add_child($nd, kind=$nt)", "typed trees carry the type name as kind"),
+        ("$n = parent_node.add_child($nd)", "plain trees add the data"),
+        ("_make_tree(parent_node=$n, parent_type=$nt, types=types, relations=relations, prefix=$p)", "recursion below the new node with its type and prefix"),
     ]
+    env: Dict[str, object] = {}
+    lp0 = [n for n in ast.walk(f.node) if isinstance(n, ast.For) and isinstance(n.target, ast.Tuple) and len(n.target.elts) == 2]
+    if lp0:
+        env["$nt"] = norm(lp0[0].target.elts[0])
+        env["$s"] = norm(lp0[0].target.elts[1])
     for txt, why in checks:
-        ok = txt in t
-        obs.append(ctx.ob("GEN", ["C20"], f, f"_make_tree: {why}", None, ok, "" if ok else f"expected `{txt}`"))
-    lps = [n for n in ast.walk(f.node) if isinstance(n, ast.For) and norm(n.iter) == "range(count)"]
+        hits = find(txt, f.node, env)
+        ok = bool(hits)
+        if ok:
+            for k, v in hits[0][1].items():
+                env.setdefault(k, v)
+        obs.append(ctx.ob("GEN", ["C20"], f, f"_make_tree: {why}", None, ok, "" if ok else f"expected a statement of the shape `{txt}`"))
+    lps = [n for n in ast.walk(f.node) if isinstance(n, ast.For) and match("range($c)", n.iter, {k: v for k, v in env.items() if k == "$c"}) is not None]
     obs.append(ctx.ob("GEN", ["C20"], f, "_make_tree: exactly `count` children per relation", None, len(lps) == 1, ""))
-    rec_if = [n for n in ast.walk(f.node) if isinstance(n, ast.If) and norm(n.test) == "node_type in relations"]
+    rec_if = [n for n in ast.walk(f.node) if isinstance(n, ast.If) and match("$nt in relations", n.test, {k: v for k, v in env.items() if k == "$nt"}) is not None]
     obs.append(ctx.ob("GEN", ["C20"], f, "_make_tree: children only for types that have relations", None, len(rec_if) == 1, ""))
     tn = [n for n in ast.walk(f.node) if isinstance(n, ast.If) and norm(n.test) == "isinstance(parent_node, TypedNode)"]
     obs.append(ctx.ob("GEN", ["C20"], f, "_make_tree: kind is passed exactly for typed parents", None, len(tn) == 1, ""))
     f = m.func("build_random_tree")
-    t = " | ".join(norm(s) for s in f.body)
-    ok = "tree: TTree = tree_class(name=name, forward_attrs=True)" in t and "_make_tree(parent_node=tree.system_root, parent_type='__root__', types=types, relations=relations, prefix='')" in t \
-        and "return tree" in t and "structure_def = structure_def.copy()" in t
+    e = None
+    for n in ast.walk(f.node):
+        if isinstance(n, (ast.Assign, ast.AnnAssign)) and n.value is not None and match("tree_class(name=$n, forward_attrs=True)", n.value) is not None:
+            e = norm(n.target if isinstance(n, ast.AnnAssign) else n.targets[0])
+    ok = e is not None and has(f"_make_tree(parent_node={e}.system_root, parent_type='__root__', types=$t, relations=$r, prefix='')", f.node) \
+        and any(norm(r.value) == e for r in _returns(f)) and has("structure_def = structure_def.copy()", f.node)
     obs.append(ctx.ob("GEN", ["C20"], f, "build_random_tree instantiates the requested class and starts at '__root__' (on a copy of the definition)", None, ok, ""))
     f = m.func("Tree.build_random_tree")
-    ok = any("build_random_tree(tree_class=cls, structure_def=structure_def)" in norm(s) for s in f.body)
+    ok = has("build_random_tree(tree_class=cls, structure_def=structure_def)", f.node)
     obs.append(ctx.ob("GEN", ["C20"], f, "Tree.build_random_tree passes its own class", None, ok, ""))
     return obs
 
@@ -493,28 +593,32 @@ def search(ctx: Ctx) -> List[Ob]:
     m = ctx.model
     f = m.func("Node._search")
     lps = [n for n in iter_own(f.node) if isinstance(n, ast.For)]
-    ok = len(lps) == 1 and norm(lps[0].iter) == "self.iterator(add_self=add_self)"
-    obs.append(ctx.ob("SEARCH", ["C09"], f, "_search iterates self.iterator(add_self=add_self) (pre-order)", None, ok, "" if ok else "matches must come in pre-order over the searched branch"))
+    ok = len(lps) == 1 and match("self.iterator(add_self=add_self)", lps[0].iter) is not None
+    obs.append(ctx.ob("SEARCH", ["C09"], f, "_search iterates self.iterator(add_self=add_self) (pre-order), the only loop", None, ok,
+                      "" if ok else "matches must come in pre-order over the searched branch, and the start node is counted against the limit like any other"))
+    ys = [x for x in iter_own(f.node, into_lambda=False) if isinstance(x, (ast.Yield, ast.YieldFrom))]
     if lps:
         lp = lps[0]
+        v = norm(lp.target)
         first = lp.body[0]
-        ok = isinstance(first, ast.If) and norm(first.test) == f"not cb_match({norm(lp.target)})" and isinstance(first.body[0], ast.Continue)
+        ok = match(f"if not $cb({v}):\n    continue", first) is not None
         obs.append(ctx.ob("SEARCH", ["C09"], f, "non-matching nodes are skipped, matching ones yielded", lp, ok, "" if ok else "selection inverted or missing"))
-        ys = [x for st in lp.body for x in ast.walk(st) if isinstance(x, ast.Yield)]
-        ok = len(ys) == 1 and norm(ys[0].value) == norm(lp.target)
-        obs.append(ctx.ob("SEARCH", ["C09"], f, "each match is yielded once", lp, ok, ""))
-    ch = [n for n in f.body if isinstance(n, ast.If) and norm(n.test) == "callable(match)"]
+        inside = [x for st in lp.body for x in ast.walk(st) if isinstance(x, ast.Yield)]
+        ok = len(inside) == 1 and norm(inside[0].value) == v and len(ys) == 1
+        obs.append(ctx.ob("SEARCH", ["C09"], f, "each match is yielded once, inside the counted loop", lp, ok,
+                          "" if ok else "a yield outside the counted loop escapes the result limit"))
+    ch = [n for n in f.body if isinstance(n, ast.If) and match("callable(match)", n.test) is not None]
     ok = len(ch) == 1
     if ok:
-        tb = {(norm(t) if t is not None else "else"): " ; ".join(norm(s) for s in b) for t, b in _if_chain(ch[0])}
-        ok = tb.get("callable(match)") == "cb_match = match" and "re.compile(pattern=match)" in tb.get("isinstance(match, str)", "") \
-            and "re.compile(pattern=match[0], flags=match[1])" in tb.get("isinstance(match, (list, tuple))", "") and "node._data is match" in tb.get("else", "")
+        tb = {(norm(t) if t is not None else "else"): b for t, b in _if_chain(ch[0])}
+        ok = set(tb) == {"callable(match)", "isinstance(match, str)", "isinstance(match, (list, tuple))", "else"}
+        if ok:
+            ok = has("$cb = match", tb["callable(match)"]) and has("re.compile(pattern=match)", tb["isinstance(match, str)"]) \
+                and has("re.compile(pattern=match[0], flags=match[1])", tb["isinstance(match, (list, tuple))"]) and has("$n._data is match", tb["else"])
     obs.append(ctx.ob("SEARCH", ["C09"], f, "matcher: callable as is, str -> regex, (pattern, flags) -> regex with flags, else data identity", None, ok, ""))
     g = m.func("Node.find_all")
-    ret = [n for n in iter_own(g.node) if isinstance(n, ast.Return) and "_search(" in norm(n.value)]
-    ok = len(ret) == 1 and "self._search(match, add_self=add_self, max_results=max_results)" in norm(ret[0].value)
+    ok = has("self._search(match, add_self=add_self, max_results=max_results)", g.node)
     obs.append(ctx.ob("SEARCH", ["C09"], g, "find_all collects _search(match, add_self, max_results) in order", None, ok, ""))
-    lc = [n for n in iter_own(g.node) if isinstance(n, ast.ListComp) and "n._data_id == data_id" in norm(n)]
-    ok = len(lc) == 1 and norm(lc[0].generators[0].iter) == "self.iterator(add_self=add_self)"
-    obs.append(ctx.ob("SEARCH", ["C09", "C02"], g, "find_all(data/data_id) selects the nodes of the branch whose _data_id equals the id", None, ok, ""))
+    lc = find("[$n for $n in self.iterator(add_self=add_self) if $n._data_id == data_id]", g.node)
+    obs.append(ctx.ob("SEARCH", ["C09", "C02"], g, "find_all(data/data_id) selects the nodes of the branch whose _data_id equals the id", None, len(lc) == 1, ""))
     return obs
